@@ -1,5 +1,6 @@
 pub mod pct;
 pub mod range;
+pub mod sigv2;
 pub mod sigv4;
 pub mod time;
 pub mod wildcard;
@@ -18,6 +19,8 @@ pub fn self_test_all() -> Result<usize, String> {
     pct::self_test()?;
     n += 1;
     sigv4::self_test()?;
+    n += 1;
+    sigv2::self_test()?;
     n += 1;
     Ok(n)
 }
